@@ -1,10 +1,11 @@
-package main
+package hk
 
 import (
 	"bufio"
 	"bytes"
 	"context"
 	"io"
+	"log"
 	"net/http"
 	"net/http/httptest"
 	"strings"
@@ -14,30 +15,33 @@ import (
 	mcp "trpc.group/trpc-go/trpc-mcp-go"
 )
 
-// quietLogger silences the library.
-type quietLogger struct{}
+// QuietLogger silences the library.
+type QuietLogger struct{}
 
-func (quietLogger) Debug(args ...interface{})                 {}
-func (quietLogger) Debugf(format string, args ...interface{}) {}
-func (quietLogger) Info(args ...interface{})                  {}
-func (quietLogger) Infof(format string, args ...interface{})  {}
-func (quietLogger) Warn(args ...interface{})                  {}
-func (quietLogger) Warnf(format string, args ...interface{})  {}
-func (quietLogger) Error(args ...interface{})                 {}
-func (quietLogger) Errorf(format string, args ...interface{}) {}
-func (quietLogger) Fatal(args ...interface{})                 {}
-func (quietLogger) Fatalf(format string, args ...interface{}) {}
+func (QuietLogger) Debug(args ...interface{})                 {}
+func (QuietLogger) Debugf(format string, args ...interface{}) {}
+func (QuietLogger) Info(args ...interface{})                  {}
+func (QuietLogger) Infof(format string, args ...interface{})  {}
+func (QuietLogger) Warn(args ...interface{})                  {}
+func (QuietLogger) Warnf(format string, args ...interface{})  {}
+func (QuietLogger) Error(args ...interface{})                 {}
+func (QuietLogger) Errorf(format string, args ...interface{}) {}
+func (QuietLogger) Fatal(args ...interface{})                 {}
+func (QuietLogger) Fatalf(format string, args ...interface{}) {}
 
-func init() { mcp.SetDefaultLogger(quietLogger{}) }
+func init() { mcp.SetDefaultLogger(QuietLogger{}) }
 
-type srvCfg struct {
+// QuietStdLog is a *log.Logger that discards (for http.Server.ErrorLog).
+func QuietStdLog() *log.Logger { return log.New(io.Discard, "", 0) }
+
+type SrvCfg struct {
 	Mode    string // stateful | stateless | sessionsOff
 	Get     bool
 	PostSSE bool
 }
 
-func (c srvCfg) opts() []mcp.ServerOption {
-	o := []mcp.ServerOption{mcp.WithServerLogger(quietLogger{}), mcp.WithServerPath("/mcp"), mcp.WithGetSSEEnabled(c.Get), mcp.WithPostSSEEnabled(c.PostSSE)}
+func (c SrvCfg) Opts() []mcp.ServerOption {
+	o := []mcp.ServerOption{mcp.WithServerLogger(QuietLogger{}), mcp.WithServerPath("/mcp"), mcp.WithGetSSEEnabled(c.Get), mcp.WithPostSSEEnabled(c.PostSSE)}
 	switch c.Mode {
 	case "stateless":
 		o = append(o, mcp.WithStatelessMode(true))
@@ -47,83 +51,83 @@ func (c srvCfg) opts() []mcp.ServerOption {
 	return o
 }
 
-type fixture struct {
+type Fixture struct {
 	S   *mcp.Server
 	TS  *httptest.Server
 	URL string
 	HC  *http.Client
 }
 
-func newFixture(c srvCfg, extra ...mcp.ServerOption) *fixture {
-	s := mcp.NewServer("verif-server", "1.2.3", append(c.opts(), extra...)...)
+func NewFixture(c SrvCfg, extra ...mcp.ServerOption) *Fixture {
+	s := mcp.NewServer("verif-server", "1.2.3", append(c.Opts(), extra...)...)
 	ts := httptest.NewUnstartedServer(s.Handler())
 	ts.Config.ErrorLog = nil
-	ts.Config.ErrorLog = quietStdLog()
+	ts.Config.ErrorLog = QuietStdLog()
 	ts.Start()
 	tr := &http.Transport{MaxIdleConnsPerHost: 64, DisableCompression: true}
-	return &fixture{S: s, TS: ts, URL: ts.URL + "/mcp", HC: &http.Client{Transport: tr}}
+	return &Fixture{S: s, TS: ts, URL: ts.URL + "/mcp", HC: &http.Client{Transport: tr}}
 }
 
-func (f *fixture) Close() {
+func (f *Fixture) Close() {
 	f.HC.CloseIdleConnections()
 	f.TS.CloseClientConnections()
 	f.TS.Close()
 }
 
-type rawResp struct {
+type RawResp struct {
 	Status int // 0 = connection aborted without an answer
 	Header http.Header
 	Body   []byte
 	Err    error
 }
 
-func (f *fixture) do(method, url string, hdr map[string]string, body []byte) rawResp {
+func (f *Fixture) Do(method, url string, hdr map[string]string, body []byte) RawResp {
 	var rd io.Reader
 	if body != nil {
 		rd = bytes.NewReader(body)
 	}
 	req, err := http.NewRequest(method, url, rd)
 	if err != nil {
-		return rawResp{Err: err}
+		return RawResp{Err: err}
 	}
 	for k, v := range hdr {
 		req.Header.Set(k, v)
 	}
 	resp, err := f.HC.Do(req)
 	if err != nil {
-		return rawResp{Status: 0, Err: err}
+		return RawResp{Status: 0, Err: err}
 	}
 	defer resp.Body.Close()
 	b, _ := io.ReadAll(resp.Body)
-	return rawResp{Status: resp.StatusCode, Header: resp.Header, Body: b}
+	return RawResp{Status: resp.StatusCode, Header: resp.Header, Body: b}
 }
 
-func (f *fixture) post(hdr map[string]string, body string) rawResp {
+func (f *Fixture) Post(hdr map[string]string, body string) RawResp {
 	h := map[string]string{"Content-Type": "application/json"}
 	for k, v := range hdr {
 		h[k] = v
 	}
-	return f.do("POST", f.URL, h, []byte(body))
+	return f.Do("POST", f.URL, h, []byte(body))
 }
 
 // stream is a client-side listening (GET) stream.
-type stream struct {
-	resp   *http.Response
-	cancel context.CancelFunc
-	eof    chan struct{} // closed when the server ended the stream (or the read failed)
-	mu     sync.Mutex
-	events []sseEvent
+type Stream struct {
+	resp       *http.Response
+	cancel     context.CancelFunc
+	eof        chan struct{} // closed when the server ended the stream (or the read failed)
+	mu         sync.Mutex
+	events     []SSEEvent
 	closedByUs bool
-	notify chan struct{}
+	notify     chan struct{}
 }
 
-type sseEvent struct {
+type SSEEvent struct {
 	ID   string
 	Data string
 }
 
-// openStream performs the GET; returns status and (for 200) a stream whose events are collected in the background.
-func (f *fixture) openStream(hdr map[string]string) (int, http.Header, *stream, error) {
+// OpenStream performs the GET; returns status and (for 200) a stream whose events are collected in the background.
+func (f *Fixture) OpenStream(hdr map[string]string) (int, http.Header, *Stream, error) {
 	ctx, cancel := context.WithCancel(context.Background())
 	req, _ := http.NewRequestWithContext(ctx, "GET", f.URL, nil)
 	req.Header.Set("Accept", "text/event-stream")
@@ -141,13 +145,13 @@ func (f *fixture) openStream(hdr map[string]string) (int, http.Header, *stream, 
 		cancel()
 		return resp.StatusCode, resp.Header, nil, nil
 	}
-	st := &stream{resp: resp, cancel: cancel, eof: make(chan struct{}), notify: make(chan struct{}, 1024)}
+	st := &Stream{resp: resp, cancel: cancel, eof: make(chan struct{}), notify: make(chan struct{}, 1024)}
 	go st.readLoop()
 	return 200, resp.Header, st, nil
 }
 
 // readLoop is a WHATWG-style SSE reader (reference reader, independent of the library's).
-func (s *stream) readLoop() {
+func (s *Stream) readLoop() {
 	defer close(s.eof)
 	br := bufio.NewReaderSize(s.resp.Body, 1<<20)
 	var id string
@@ -163,7 +167,7 @@ func (s *stream) readLoop() {
 		if line == "" {
 			if hasData {
 				s.mu.Lock()
-				s.events = append(s.events, sseEvent{ID: id, Data: strings.Join(data, "\n")})
+				s.events = append(s.events, SSEEvent{ID: id, Data: strings.Join(data, "\n")})
 				s.mu.Unlock()
 				select {
 				case s.notify <- struct{}{}:
@@ -191,7 +195,7 @@ func (s *stream) readLoop() {
 	}
 }
 
-func (s *stream) ended(wait time.Duration) bool {
+func (s *Stream) Ended(wait time.Duration) bool {
 	if wait <= 0 {
 		select {
 		case <-s.eof:
@@ -208,7 +212,7 @@ func (s *stream) ended(wait time.Duration) bool {
 	}
 }
 
-func (s *stream) closeByClient() {
+func (s *Stream) CloseByClient() {
 	s.mu.Lock()
 	s.closedByUs = true
 	s.mu.Unlock()
@@ -216,26 +220,26 @@ func (s *stream) closeByClient() {
 	s.resp.Body.Close()
 }
 
-func (s *stream) snapshot() []sseEvent {
+func (s *Stream) Snapshot() []SSEEvent {
 	s.mu.Lock()
 	defer s.mu.Unlock()
-	return append([]sseEvent{}, s.events...)
+	return append([]SSEEvent{}, s.events...)
 }
 
-// waitEvents waits until at least n events have arrived or the timeout passes.
-func (s *stream) waitEvents(n int, timeout time.Duration) []sseEvent {
+// WaitEvents waits until at least n events have arrived or the timeout passes.
+func (s *Stream) WaitEvents(n int, timeout time.Duration) []SSEEvent {
 	deadline := time.After(timeout)
 	for {
-		ev := s.snapshot()
+		ev := s.Snapshot()
 		if len(ev) >= n {
 			return ev
 		}
 		select {
 		case <-s.notify:
 		case <-s.eof:
-			return s.snapshot()
+			return s.Snapshot()
 		case <-deadline:
-			return s.snapshot()
+			return s.Snapshot()
 		}
 	}
 }
